@@ -45,6 +45,7 @@ def judge (fam payload impl : String) : Verdict :=
   | "sched.emit" => Sched.judgeEmit payload impl
   | "sched.excl" => Sched.judgeExcl payload impl
   | "sched.indep" => Sched.judgeIndep payload impl
+  | "match.multi" => Sched.judgeMulti payload impl
   | "sched.dump" => Sched.judgeDump payload impl
   | _ =>
     if fam.startsWith "cost." then Cost.judge payload impl
